@@ -168,9 +168,11 @@ RETCODE adfGetCacheEntry ( const struct bDirCacheBlock * const dirc,
                            struct AdfCacheEntry * const  cEntry )
 {
     int ptr;
+    /* records live in the 488-byte record area of the block, not in all 512 bytes */
+    const int areaSize = (int) sizeof ( dirc->records );
 
     ptr = *p;
-    if (ptr > LOGICAL_BLOCK_SIZE - 26) return RC_ERROR; /* minimum cache entry length */
+    if (ptr < 0 || ptr > areaSize - 26) return RC_ERROR; /* minimum cache entry length */
 
 /*printf("p=%d\n",ptr);*/
 
@@ -197,13 +199,13 @@ RETCODE adfGetCacheEntry ( const struct bDirCacheBlock * const dirc,
          return;
 */
     if (cEntry->nLen < 1 || cEntry->nLen > MAXNAMELEN) return RC_ERROR;
-    if ((ptr + 24 + cEntry->nLen) > LOGICAL_BLOCK_SIZE) return RC_ERROR;
+    if ((ptr + 24 + cEntry->nLen + 1) > areaSize) return RC_ERROR;
     memcpy(cEntry->name, dirc->records+ptr+24, cEntry->nLen);
     cEntry->name[(int)(cEntry->nLen)]='\0';
 
     cEntry->cLen = dirc->records[ptr+24+cEntry->nLen];
     if (cEntry->cLen > MAXCMMTLEN) return RC_ERROR;
-    if ((ptr+24+cEntry->nLen+1+cEntry->cLen) > LOGICAL_BLOCK_SIZE) return RC_ERROR;
+    if ((ptr+24+cEntry->nLen+1+cEntry->cLen) > areaSize) return RC_ERROR;
     if (cEntry->cLen>0) {
 /*        cEntry->comm =(char*)malloc(sizeof(char)*(cEntry->cLen+1));
         if (!cEntry->comm) {
